@@ -37,14 +37,20 @@ def main(argv: list[str]) -> int:
         raise MachineryError("too few configurations emitted")
     ident = [1, 2, 3]
     if tier == "quick":
-        core = [c for c in cfgs if (c["order"] == ident and not c["prior"])            # all seeds
-                or (c["seed"] in (0, 42) and not c["prior"])                           # all orders
-                or (c["seed"] in (0, 7) and c["order"] == ident)]                      # all prior sequences
-        rest = [c for c in cfgs if c not in core]
-        rnd.shuffle(rest)
-        chosen = core + rest[:120]
+        core = [c for c in cfgs if (c["order"] == ident and not c["prior"])                        # all seeds
+                or (c["seed"] in (0, 42) and not c["prior"])                                       # all orders
+                or (c["seed"] in (0, 7) and c["order"] == ident and len(c["prior"]) == 1)]         # every single prior build
+        keys = {json.dumps(c, sort_keys=True) for c in core}
+        rest = [c for c in cfgs if c["order"] == ident and len(c["prior"]) == 2 and json.dumps(c, sort_keys=True) not in keys]
+        rest2 = [c for c in cfgs if c["order"] != ident and c["prior"]]
+        rnd.shuffle(rest); rnd.shuffle(rest2)
+        chosen = core + rest[:160] + rest2[:40]
     else:
-        chosen = cfgs
+        # every configuration with the identity order or without prior builds; a seeded sample of the rest
+        core = [c for c in cfgs if c["order"] == ident or not c["prior"]]
+        rest = [c for c in cfgs if not (c["order"] == ident or not c["prior"])]
+        rnd.shuffle(rest)
+        chosen = core + rest[:3000]
     for i, c in enumerate(chosen):
         c["fmt"] = "ff" if c["seed"] % 2 == 0 or tier == "quick" and False else ("json" if c["seed"] % 2 else "ff")
     by_seed: dict[int, list[Any]] = {}
@@ -104,17 +110,28 @@ def main(argv: list[str]) -> int:
                 what = "set of diagnostics depends on the order of the file arguments: %r vs %r" % (sorted(res["messages"])[:4], sorted(b["messages"])[:4])
         if what is None and (sorted(res["warm_messages"]) != sorted(res["messages"]) or res["warm_status"] != res["status"]):
             what = "warm run in the same interpreter prints differently: %r vs %r" % (res["warm_messages"][:4], res["messages"][:4])
+        if what is None and c["order"] == ident and res["warm_messages"] != b["warm_messages"]:
+            what = "warm run (all modules fresh, diagnostics replayed) prints in a different order than in the baseline context: %r vs %r" % (
+                res["warm_messages"][:6], b["warm_messages"][:6])
         if what:
             dim = "seed" if c["seed"] != 0 and c["order"] == ident and not c["prior"] else ("order" if c["order"] != ident else "prior")
-            v.violation("nondet:%s:%s:%s" % (dim, c["world"], json.dumps(c["order"] if dim == "order" else (c["prior"] if dim == "prior" else c["seed"]))), x, what)
+            key = "nondet:%s:%s:%s" % (dim, c["world"], json.dumps(c["order"] if dim == "order" else (c["prior"] if dim == "prior" else c["seed"])))
+            if dim == "order":
+                # which diagnostics differ (positions stripped) is part of the key: a listed finding never hides another difference
+                import hashlib, re as _re
+                diff = sorted({_re.sub(r"^[^:]+:\d+: ", "", m) for m in set(res["messages"]) ^ set(b["messages"])})
+                key += ":" + hashlib.sha256(json.dumps(diff).encode()).hexdigest()[:8]
+            v.violation(key, x, what)
     if n_cmp == 0:
         raise MachineryError("conformance step did not run")
     coverage = {
         "evaluations": len(results), "distinct_nontrivial": nontrivial,
         "states": r.distinct, "transitions": r.generated, "configurations_emitted_by_tlc": len(cfgs),
-        "rule": "configurations = hash seed (8) x permutation of the 3 file arguments (6) x sequence of <=2 unrelated prior builds in the same "
-                "interpreter (13) x world (3), emitted by TLC from Context.tla; quick: all seeds, all orders for 2 seeds, all prior sequences for "
-                "2 seeds + seeded sample; each executed for real and compared with the baseline context; non-trivial = configuration whose build prints diagnostics",
+        "rule": "configurations = hash seed (8) x permutation of the 3 file arguments (6) x sequence of <=2 unrelated prior builds (world x options: same / "
+                "python 3.10 / win32 + 3.11 + loose) in the same interpreter (241) x world (5, incl. an import cycle with diagnostics in every module and misspelt "
+                "stdlib imports), emitted by TLC from Context.tla; quick: all seeds, all orders for 2 seeds, every single prior build for 2 seeds + a seeded sample "
+                "of two-build sequences; thorough: every configuration with the identity order or without prior builds + 3000 sampled; each executed for real "
+                "(cold build + warm build in the same interpreter) and compared with the baseline context; non-trivial = configuration whose build prints diagnostics",
         "samples": [{"cfg": results[0]["cfg"], "messages": results[0]["res"].get("messages", [])[:5], "cache_digest": results[0]["res"].get("cache")}],
         "tlc": coverage_summary(r), "exhaustive": tier == "thorough",
     }
